@@ -1,9 +1,11 @@
 import MageModel.Parse.Ast
 import MageModel.Parse.Pkg
+import MageModel.Parse.Fields
 /-!
 # C19 — mage:import exposes exactly the imported package's targets under its alias (tag recognition part)
 All placements of the tag, all lengths of the comment group, all alias spellings.
-`fields` is the recorded behaviour of `strings.Fields(strings.ToLower(text[2:]))`.
+`fields` is any function in the general theorems; since round 7 `strings.Fields(strings.ToLower(text[2:]))` is transcribed
+(`Parse/Fields.lean: commentFields`) and the last section states the recognition on the comment text itself.
 -/
 namespace MageModel.Props.C19
 open MageModel.Parse
@@ -136,5 +138,39 @@ theorem named_imports_exact (tagged : List (String × Tagged)) (path alias : Str
 
 example : collectNamed [("p/tools", .named "dev"), ("p/lib", .root), ("p/tools", .named "ci"), ("p/tools", .named "dev")] =
     [("p/tools", "dev"), ("p/tools", "ci")] := by decide
+
+/-! ### On the comment text itself (`commentFields` = the transcribed `strings.Fields ∘ strings.ToLower ∘ [2:]`) -/
+
+/-- **a bare tag**: the group's last comment, after its two-character marker and lower-cased, is blanks, `mage:import`,
+blanks — whatever precedes it in the group -/
+theorem bare_tag_text (pre : List Comment) (last : Comment) (ws ws' : List Char)
+    (hws : ∀ c ∈ ws, goIsSpace c = true) (hws' : ∀ c ∈ ws', goIsSpace c = true)
+    (hbody : (lower (String.ofList (last.toList.drop 2))).toList = ws ++ "mage:import".toList ++ ws') :
+    tagOfGroup "mage:import" 0 commentFields (some (pre ++ [last])) = some ["mage:import"] := by
+  have hf : commentFields last = ["mage:import"] := by
+    unfold commentFields goFields
+    rw [hbody, goFieldsL_one ws _ ws' hws (by decide) (by decide) hws']
+    rfl
+  simp [tagOfGroup, hf]
+
+/-- **a tag with an alias**: …, `mage:import`, at least one blank, one more word, blanks: the alias is that word -/
+theorem alias_tag_text (pre : List Comment) (last : Comment) (ws s : List Char) (b : Char) (al ws' : List Char)
+    (hws : ∀ c ∈ ws, goIsSpace c = true) (hb : goIsSpace b = true) (hs : ∀ c ∈ s, goIsSpace c = true)
+    (hal : ∀ c ∈ al, goIsSpace c = false) (hne : al ≠ []) (hws' : ∀ c ∈ ws', goIsSpace c = true)
+    (hbody : (lower (String.ofList (last.toList.drop 2))).toList = ws ++ "mage:import".toList ++ b :: (s ++ al ++ ws')) :
+    tagOfGroup "mage:import" 0 commentFields (some (pre ++ [last])) = some ["mage:import", String.ofList al] := by
+  have hf : commentFields last = ["mage:import", String.ofList al] := by
+    unfold commentFields goFields
+    rw [hbody, goFieldsL_two ws _ s b al ws' hws (by decide) (by decide) hb hs hal hne hws']
+    rfl
+  simp [tagOfGroup, hf]
+
+/-- letter case and the kind of blank do not matter; a longer first word is not the tag (tests of `commentFields`) -/
+example : commentFields "// mage:import" = ["mage:import"] ∧ commentFields "//Mage:Import\tTL " = ["mage:import", "tl"] ∧
+    commentFields "/* MAGE:IMPORT\u00a0ops */" = ["mage:import", "ops", "*/"] ∧ commentFields "// mage:imports" = ["mage:imports"] ∧
+    commentFields "//" = [] ∧ commentFields "// \u3000 " = [] := by decide
+
+example : tagOfGroup "mage:import" 0 commentFields (some ["// remark", "// more", "//   Mage:IMPORT  X1"]) = some ["mage:import", "x1"] := by
+  decide
 
 end MageModel.Props.C19
